@@ -840,17 +840,31 @@ impl Inner {
                     return Ok(());
                 }
 
-                // The stream must be receive open
-                if !stream.state.ensure_recv_open()? {
-                    proto_err!(conn: "recv_push_promise: initiating stream is not opened");
+                if stream.state.is_local_error() && !self.counts.peer().is_server() {
+                    // We have reset the initiating stream, but the peer may
+                    // have sent the promise before seeing our RST_STREAM.
+                    None
+                } else {
+                    // The stream must be receive open
+                    if !stream.state.ensure_recv_open()? {
+                        proto_err!(conn: "recv_push_promise: initiating stream is not opened");
+                        return Err(Error::library_go_away(Reason::PROTOCOL_ERROR));
+                    }
+
+                    Some(stream.key())
+                }
+            }
+            None => {
+                if self.counts.peer().is_server()
+                    || !self
+                        .actions
+                        .may_have_forgotten_stream(self.counts.peer(), id)
+                {
+                    proto_err!(conn: "recv_push_promise: initiating stream is in an invalid state");
                     return Err(Error::library_go_away(Reason::PROTOCOL_ERROR));
                 }
 
-                stream.key()
-            }
-            None => {
-                proto_err!(conn: "recv_push_promise: initiating stream is in an invalid state");
-                return Err(Error::library_go_away(Reason::PROTOCOL_ERROR));
+                None
             }
         };
 
@@ -860,6 +874,20 @@ impl Inner {
 
         // Ensure that we can reserve streams
         self.actions.recv.ensure_can_reserve()?;
+
+        let parent_key = match parent_key {
+            Some(key) => key,
+            None => {
+                // A promise on a stream we already reset still reserves the
+                // promised stream, so it has to be refused explicitly.
+                tracing::debug!(
+                    "recv_push_promise for reset stream={:?}, canceling promised={:?}",
+                    id,
+                    promised_id,
+                );
+                return Err(Error::library_reset(promised_id, Reason::CANCEL));
+            }
+        };
 
         // Next, open the stream.
         //
